@@ -222,8 +222,9 @@ func r034(c *an.Ctx, rule string) {
 	if fn := mustFunc(c, rule, resPkg, "Value", "set"); fn != nil {
 		name := "(*pkg/resource.Value).set"
 		gaus := an.CallsTo(fn, gauName)
-		for i, s := range an.CallsTo(fn, busSend) {
-			fields, _ := litFields(s.Common().Args[2])
+		for i, vc := range an.CallsToDeep(fn, busSend) {
+			s := vc.Site
+			fields, _ := litFields(vc.Inner.Common().Args[2])
 			cons := fmt.Sprintf("%s|publish#%d carries the committed value", name, i+1)
 			if fields == nil || len(gaus) != 1 {
 				c.Unk(rule, cons, s.Pos(), "the published event is not a composite literal / GetAndUpdate call not unique")
@@ -246,8 +247,9 @@ func r034(c *an.Ctx, rule string) {
 	if fn := mustFunc(c, rule, resPkg, "Collection", "Update"); fn != nil {
 		name := "(*pkg/resource.Collection).Update"
 		gaus := an.CallsTo(fn, gauName)
-		for i, s := range an.CallsTo(fn, busSend) {
-			fields, _ := litFields(s.Common().Args[2])
+		for i, vc := range an.CallsToDeep(fn, busSend) {
+			s := vc.Site
+			fields, _ := litFields(vc.Inner.Common().Args[2])
 			cons := fmt.Sprintf("%s|publish#%d", name, i+1)
 			if fields == nil || len(gaus) != 1 {
 				c.Unk(rule, cons, s.Pos(), "the published event is not a composite literal / GetAndUpdate call not unique")
@@ -284,8 +286,9 @@ func r034(c *an.Ctx, rule string) {
 				del = cl
 			}
 		})
-		for i, s := range an.CallsTo(fn, busSend) {
-			fields, _ := litFields(s.Common().Args[2])
+		for i, vc := range an.CallsToDeep(fn, busSend) {
+			s := vc.Site
+			fields, _ := litFields(vc.Inner.Common().Args[2])
 			cons := fmt.Sprintf("%s|publish#%d", name, i+1)
 			if fields == nil || del == nil {
 				c.Unk(rule, cons, s.Pos(), "the published event is not a composite literal / delete not found")
